@@ -3,18 +3,66 @@
 import json, subprocess
 
 CHECKS = {
- "C01": ("exploration", "4.C01", "round-trip oracle over generated replays (independent encoder; proptest choice-stream + version sweep; libFuzzer in thorough)",
+ "C01": ("exploration", "4.C01", "round-trip oracle over generated replays (independent encoder; proptest choice-stream + exhaustive minor-version sweep; libFuzzer target model_roundtrip in thorough)",
          "Generated-input search: an independent byte-level .slp encoder produces well-formed replays over version x ports x ICs x history (rollbacks, absences, items) x gecko x end x metadata; the oracle write(read(b)) == b is exact. Exploration is the right level: the space is unbounded and the oracle is cheap and total.",
          "Trusts the engine's hand-written spec tables (self-tested; all 23 parsable fixtures are in the encoder's image) and proptest's RNG; absence of a violation is 'held on everything explored'."),
- "C02": ("exploration", "4.C02", "round-trip oracle slp->slpp->slp x compression x hash flag, forced-cell enumeration + proptest",
+ "C02": ("exploration", "4.C02", "round-trip oracle slp->slpp->slp x compression x hash flag; forced-cell enumeration + proptest",
          "Same model space x {none, LZ4, ZSTD} x {hash on, off}; forced cells guarantee zero-frame / no-metadata / no-end / 3.0-3.6 / doubled-end / gecko games under every compression; oracle is byte equality plus hash and quirk equality, hash checked against a one-shot XXH3.",
-         "Trusts arrow2's codecs, xxhash-rust's one-shot xxh3_64."),
+         "Trusts arrow2's codecs and xxhash-rust's one-shot xxh3_64."),
  "C03": ("exploration", "4.C03", "model-based oracle: decoded columns vs big-endian decode at hand-written spec offsets; exhaustive version x leaf presence matrix; one-hot events",
          "Every leaf of every frame event is compared with the value decoded from the generated payload at the offset of an independent spec table, for all 784 minor versions; presence (Some/None) per version x leaf is enumerated exhaustively; one-hot events make any shift or swap unmistakable.",
          "Trusts spec.rs (contiguity/size self-test; fixtures decoded through it agree with peppi)."),
  "C04": ("exploration", "4.C04", "model-based oracle: the generated event history is the reference model for rows, presence bits, values and item grouping",
-         "Enumerated presence/rollback shapes x port layouts x framing regimes plus random histories; the history is the reference model: row count, id column, validity bits, per-row values of present characters, item offsets and order, and one entry per row in every column and nested bitmap.",
+         "Enumerated presence/rollback shapes x port layouts x framing regimes plus random histories; the history is the reference model: row count, id column, validity bits, per-row values of present characters, item offsets and order, one entry per row in every column and nested bitmap.",
          "Values stored for absent characters are unspecified and not compared."),
+ "C05": ("exploration", "4.C05", "model-based oracle: Start/End JSON rendering vs a document built from the raw block at spec offsets; exhaustive Game End cross product; reject classes",
+         "Start blocks of all ten length classes with every occupancy/type pattern and full-range mapped bytes, and the complete cross product of Game End blocks (15,655), are compared field by field (through the JSON rendering, read by the engine's own order-preserving JSON reader, plus float bits and raw bytes) with values decoded at the spec offsets; illegal enum bytes / invalid text must be rejected.",
+         "Trusts serde_json's f32 text and encoding_rs as the Shift-JIS reference for name fields."),
+ "C06": ("exploration", "4.C06", "structure-aware + byte-level mutation of generated replays, option matrix, incremental driver, injected read/seek faults and EINTR, child-process isolation for aborts (libFuzzer targets read_bytes/read_struct in thorough)",
+         "No panic / abort / unbounded read loop on corrupted inputs: 22 corruption operators over valid seeds of every regime, all four option combinations, the README incremental loop, a hard I/O error at every read call (must surface as Err), EINTR transparency, and metadata nested up to 10^6 deep in a child process. Exploration: the input space is all byte strings.",
+         "Err is always acceptable; allocation size is not judged; hangs would show as exit 2 (inconclusive), not as violations."),
+ "C07": ("fault_enumeration", "4.C07", "exhaustive prefix enumeration of generated .slp and .slpp files x options, with a /proc-based sleeping-thread watchdog",
+         "Every proper prefix of 48 small .slp files and of 9 .slpp archives (3 games x 3 compressions) x skip-frames on/off is read; larger files at every structural boundary +-k plus random offsets. Truncation points are a finite fault space per file, so enumeration is the right level; files come from the generator.",
+         "A reader thread is judged 'sleeping forever' only when parked in nanosleep with zero CPU over three samples on an in-memory input."),
+ "C08": ("exploration", "4.C08", "metamorphic + model-based: unknown events inserted at every boundary / newer versions with longer payloads vs the undisturbed parse and the model",
+         "Unknown event codes (sizes 1..65535) inserted at event boundaries of generated replays, and versions > 3.16 with 0-40 extra trailing bytes per event: the parse must equal the parse of the undisturbed file and the model field by field.",
+         "Quirk flags compared only for unknown-event insertion (see DESIGN)."),
+ "C09": ("exploration", "4.C09", "enumeration of versions on both sides of 3.16.0 for both writers (exhaustive reject space for the .slp writer in thorough) + generated newer files",
+         "Accept side: generated replays of all 784 supported minors x 8 patches written by both writers; reject side: version field set to boundary + random versions for both writers, every (major, minor) block x 256 patches for the .slp writer, and genuinely newer generated files.",
+         "The version field of a parsed game is set directly (public field) on the reject side."),
+ "C10": ("exploration", "4.C10", "differential oracle: skip-frames read vs full read, x hash x .slp/.slpp x compression; all minors enumerated",
+         "Finished generated replays: skip-frames result equals the full read in start/end/metadata, has zero rows and exactly the version's empty column set, can be written by both writers and re-read; the .slpp reader's skip option likewise.",
+         "Unfinished replays are outside the property."),
+ "C11": ("exploration", "4.C11", "differential oracle against a one-shot XXH3-64 under generated read schedules (short reads, all two-piece splits), skip on/off",
+         "Hash string equals 'xxh3:'+16 hex of an independent one-shot XXH3-64 of the file for every fragmentation schedule and skip mode, reader consumes exactly the file, None when not requested, unchanged through .slpp.",
+         "xxhash-rust one-shot function anchored by the published empty-input vector."),
+ "C12": ("exploration", "4.C12", "differential oracle: README incremental driver vs one-shot reader under generated read schedules, invariant checked after every call",
+         "After every parse_event call: bytes_read equals bytes consumed, frame count monotone, each completed frame bit-equal to the one-shot game's row (and its row view equal to its columns); final start/end/metadata/gecko equal.",
+         "The open last frame of a <3.0 stream is compared only for characters present in it."),
+ "C13": ("exploration", "4.C13", "two hand-written accessor tables (columns vs row structs) compared at every index of generated games with pairwise-distinct field patterns",
+         "Game::frame(i)/transpose_one(i) vs column values at i for every leaf, every row, all 784 minors; items vs offset slice; in-progress representation checked inside C12's driver for every completed frame.",
+         "Accessor tables are keyed by public field names."),
+ "C14": ("exploration", "4.C14", "schema oracle built from the independent spec table for all 784 minors x 15 port subsets; by-name walk of the struct array vs columns and model; import round trip",
+         "data_type() equals the schema derived from spec.rs, each Arrow child (by name) holds the column's bits and validity, and from_struct_array(into_struct_array(f)) serialises to the identical .slp.",
+         "For 3.0-3.6 the schema has no `end` child (Arrow forbids empty structs)."),
+ "C15": ("exploration", "4.C15", "naive O(n^2) reference model over generated id sequences and parsed replays",
+         "Rollback masks for both modes equal the quadratic definition on generated sequences (monotone, repeats, non-adjacent repeats, decreasing, gaps) built directly as a Frame, and on id columns of generated replays.",
+         "ids >= -123 and <= -123+2^26."),
+ "C16": ("exploration", "4.C16", "round trip through an independent UBJSON encoder, tar walker and order-preserving JSON reader over generated metadata trees",
+         "Generated trees (order, unicode, full int32 range, depth to the 127 limit): read tree equals the model in order, write reproduces the bytes, metadata.json in the .slpp holds the same ordered tree, absent stays absent.",
+         "Depth > 127, duplicate keys and non-int32 numbers are outside the format."),
+ "C17": ("exploration", "4.C17", "fixed-point + self-consistency oracle over generated replays with tolerated irregularities; raw element measured by an independent event walker",
+         "w = write(read(x)) declares the raw length the engine's walker measures, re-reads to the same game, and write(read(w)) == w, for x with unknown events, junk after Game End, permuted frame events, missing end/metadata.",
+         "Equality of w with x is not required."),
+ "C18": ("exploration", "4.C18", "independent tar walk + JSON comparison + entry splicing + format-version rewriting over generated archives",
+         "Entry list/order/signature/checksums/trailer, JSON entries byte-equal to the rendering of what the reader reconstructs, determinism, unknown entries ignored, format version gate.",
+         "frames.arrow is also present for zero-frame games (D3's repair)."),
+ "C19": ("exploration", "4.C19", "reference decoder (arithmetic JIS rows + strict encoding_rs) over generated fields, metamorphic bytes-after-NUL relation, exhaustive normalisation over all scalar values",
+         "Generated 16/31/10-byte fields (NUL at every position, garbage after it, invalid sequences) through MeleeString::try_from and through Game Start blocks; normalisation checked for all 1,112,064 scalar values.",
+         "encoding_rs defines Shift-JIS outside the arithmetic subset."),
+ "C20": ("exploration", "4.C20", "exhaustive enumeration (2^32 comparison pairs, 2^24 display/parse triples x 2 types) + grammar-based string generation",
+         "gte/lt vs lexicographic comparison for every (version, threshold) pair; Display->FromStr identity for every triple; near-valid strings must be rejected.",
+         "Leading '+' and leading zeros are unspecified."),
 }
 
 NOT_YET = {}
